@@ -653,3 +653,9 @@ for _id, _props, _rule in (('withlock-next-outside', 'C03,C01', 'C03.L2'), ('sin
                            ('tagdispatch-always-false', 'C12', 'C12.F1'), ('singleexit-process-starts-true', 'C05', 'C05.B'), ('singleexit-mixins-starts-true', 'C12', 'C12.F1'),
                            ('withlock-wrong-mutex', 'C06', 'C06.G'), ('singleexit-remove-never-true', 'C15', 'C15.P3')):
     M.append(dict(id='eq3var-' + _id, patch=_os.path.join(_P, 'eq3var', _id + '.diff'), props=_props, expect='fire', rule=_rule))
+# ---------------- own probes of the fourth audit round (selftest/patches/own4) ---------------------------------------------
+# the two enable_if overloads of doDispatch / doEnqueue exchanged in the class body: no finding key may depend on source order
+mp('eq-own4-swap-overload-order', 'own4/swap-overload-order.diff', 'C14,C20,C12,C04', 'silent')
+# the recording step of the three ScopedRemover<Dispatcher> add functions extracted into a private helper doAddItem(const Item &)
+mp('eq-own4-remover-additem-helper', 'own4/remover-additem-helper.diff', 'C15,C09,C16', 'silent')
+M.append(dict(id='own4var-additem-helper-no-lock', patch=_os.path.join(_P, 'own4var', 'additem-helper-no-lock.diff'), props='C15', expect='fire', rule='C15.P3'))
